@@ -35,7 +35,7 @@
 (*                                                                         *)
 (* Named deviations (TRUE = what the code does; FALSE = the design under   *)
 (* which the properties hold, shown by TLC):                               *)
-(*   CacheSetBeforeInsert  known open finding C04                          *)
+(*   CacheSetBeforeInsert  C04 finding, repaired by eb377cd (kept as mutation) *)
 (*                         undiscoverable|cache-set-before-insert          *)
 (*   CacheKeyIgnoresType   the cache key is (day, fingerprint) while the   *)
 (*                         series row and every reader filter carry the    *)
@@ -142,7 +142,8 @@ IngestLM(sig, items, fail, bad) ==
         hits == {p \in Pairs(items) \ new : ~HasRow(p[1], p[2], ty) /\ ~\E z \in skipped : z[1] = p[1] /\ z[2] = p[2] /\ z[3] = ty}
         sOk == SeriesOk(fail, bad)
         pOk == SamplesOk(fail, bad)
-        setC == CacheSetBeforeInsert \/ sOk
+        \* FALSE is the code since fix eb377cd: keys are set at parse time and forgotten when the request fails
+        setC == CacheSetBeforeInsert \/ Ok(sig, items, fail, bad)
         trig == IF bad THEN "parse-error" ELSE "insert-failed"
     IN  /\ cache' = IF setC THEN cache \cup {CK(p[1], p[2], ty) : p \in new} ELSE cache
         /\ poison' = IF setC /\ ~sOk THEN poison \cup {<<p[1], p[2], CK(p[1], p[2], ty)[3], trig>> : p \in new} ELSE poison
